@@ -142,7 +142,9 @@ func (vc *VC) execCall(fr *frame, n *Node, x *ssa.Call) {
 	}
 	fc := vc.prog.ContractFor(callee)
 	if fc != nil && !fc.Inline {
+		vc.curClo = clo
 		vc.callWithContract(fr, n, x, callee, fc, args)
+		vc.curClo = nil
 		return
 	}
 	if callee.Blocks != nil && (clo != nil || (fc != nil && fc.Inline) || vc.autoInline(callee)) && fr.depth < 6 {
@@ -208,7 +210,23 @@ func (vc *VC) callWithContract(fr *frame, n *Node, x *ssa.Call, callee *ssa.Func
 			params[p.Name()] = args[i]
 		}
 	}
-	lk := func(name string) (Val, bool) { v, ok := params[name]; return v, ok }
+	clo := vc.curClo
+	lk := func(name string) (Val, bool) {
+		if v, ok := params[name]; ok {
+			return v, true
+		}
+		// captured variables of a closure called with its contract: the cells bound at the MakeClosure
+		if clo != nil && clo.fn == callee {
+			for i, fv := range callee.FreeVars {
+				if fv.Name() == name && i < len(clo.bindings) {
+					if pt, ok := fv.Type().Underlying().(*types.Pointer); ok && isCellType(pt.Elem()) {
+						return Val{T: clo.bindings[i].T, Typ: pt.Elem(), Cell: true}, true
+					}
+				}
+			}
+		}
+		return Val{}, false
+	}
 	pre := n.st.clone()
 	ctx := &SpecCtx{vc: vc, lookup: lk, st: n.st, oldSt: pre, oldLookup: lk, pkg: callee.Pkg.Pkg, fnName: callee.Name()}
 	for k, rq := range fc.Requires {
@@ -240,8 +258,7 @@ func (vc *VC) callWithContract(fr *frame, n *Node, x *ssa.Call, callee *ssa.Func
 		if v, ok := rn[name]; ok {
 			return v, true
 		}
-		v, ok := params[name]
-		return v, ok
+		return lk(name)
 	}
 	ctx2 := &SpecCtx{vc: vc, lookup: lk2, st: n.st, oldSt: pre, oldLookup: lk, pkg: callee.Pkg.Pkg, fnName: callee.Name()}
 	for _, en := range fc.Ensures {
